@@ -41,7 +41,7 @@ MARK = [m0, m1, m2]
 
 def RULE(tier):
     return (
-        "terms: ALL terms of depth <= 2 over heads {f,g} (arity 1 and 2) and constants {'a',1} (422 terms); rules: ALL left-hand sides of depth <= 2 "
+        "terms: ALL terms of depth <= 2 over heads {f,g} (arity 1 and 2) and constants {'a',1} (422 terms), and the same again over the falsy constants {'',0}; rules: ALL left-hand sides of depth <= 2 "
         "over the same grammar with variables {x,y} (repeats allowed; 3964 patterns) as single-rule sets, and ALL unordered pairs (+ selected triples in thorough) of the 44 "
         "patterns of depth <= 1 as multi-rule sets. Oracle: multiset of (rule, subs) from iter_matches == brute-force matches; top-level rewrite "
         "applies a matching rule iff one exists; bottom_up rewrite == reference bottom-up application for single rules. non-trivial = pattern contains a variable and term is a task."
@@ -110,23 +110,31 @@ def vars_of(p):
 def shards(tier):
     out = [("single", i, 48) for i in range(48)]
     out += [("pairs", i, 16) for i in range(16)]
+    # the same single-rule sweep with the legal but FALSY constants '' and 0 (a binding that is falsy must still be a binding)
+    out += [("single0", i, 48) for i in range(48)]
     return out
 
 
 TERMS = None
 PATS2 = None
 PATS1 = None
+TERMS0 = None
+PATS2_0 = None
 
 
 def setup():
-    global TERMS, PATS2, PATS1
+    global TERMS, PATS2, PATS1, TERMS0, PATS2_0
     TERMS = gen(["a", 1], 2)
     PATS2 = gen(["a", 1, "x", "y"], 2)
     PATS1 = gen(["a", 1, "x", "y"], 1)
+    TERMS0 = gen(["", 0], 2)
+    PATS2_0 = gen(["", 0, "x", "y"], 2)
 
 
-def check_ruleset(pats, ctx, case_prefix):
+def check_ruleset(pats, ctx, case_prefix, terms=None):
     from dask.rewrite import RewriteRule, RuleSet
+
+    terms = TERMS if terms is None else terms
 
     rules = []
     for i, p in enumerate(pats):
@@ -140,7 +148,7 @@ def check_ruleset(pats, ctx, case_prefix):
         ctx.violation(f"RuleSet-raises:{type(e).__name__}", (case_prefix, pats), repr(e))
         return
     has_var = any(vars_of(p) for p in pats)
-    for ti, t in enumerate(TERMS):
+    for ti, t in enumerate(terms):
         case = (case_prefix, pats, t)
         ctx.case(case, nontrivial=has_var and isinstance(t, tuple))
         bt = build(t)
@@ -201,6 +209,13 @@ def run_shard(shard, ctx):
             if ctx.out_of_time():
                 return
             ctx.guard(("single", (p,)), check_ruleset, (p,), ctx, "single")
+    elif kind == "single0":
+        for i, p in enumerate(PATS2_0):
+            if i % nparts != part:
+                continue
+            if ctx.out_of_time():
+                return
+            ctx.guard(("single0", (p,)), check_ruleset, (p,), ctx, "single0", TERMS0)
     else:
         combos = list(itertools.combinations(range(len(PATS1)), 2))
         if ctx.tier == "thorough":
@@ -215,8 +230,6 @@ def run_shard(shard, ctx):
 
 
 def replay(case, ctx):
-    global TERMS
     setup()
-    if len(case) == 3:
-        TERMS = [case[2]]
-    check_ruleset(tuple(case[1]), ctx, case[0])
+    terms = [case[2]] if len(case) == 3 else (TERMS0 if case[0] == "single0" else TERMS)
+    check_ruleset(tuple(case[1]), ctx, case[0], terms)
